@@ -556,6 +556,16 @@ class C13(Prop):
                             inherit = w.r_type(e)
                             break
                         s_ = s_.parent
+            # does the parent object handed to the factory deliver the member through its own type definition?
+            # (pure: parents have no parent, so their type is their own `_type` or the entry of their scope)
+            parent_delivers = False
+            if kind == 'create' and not is_none(op[4]) and opt_int(op[4]) < nsym:
+                pv = w.syms[opt_int(op[4])]
+                if pv.parent is None:
+                    pt = pv.type if pv.scope is None else pv.scope.symbol_attrs.lookup(pv.name)
+                    td = getattr(getattr(pt, 'dtype', None), 'typedef', None) if pt is not None else None
+                    if td is not None and td is not BasicType.DEFERRED:
+                        parent_delivers = any(m.name.lower() == str(op[1][-1]).lower() for m in td.variables)
             on_record = None
             if kind == 'clone' and is_keep(op[4]) and int(str(op[1])) < nsym:
                 v0 = w.syms[int(str(op[1]))]
@@ -603,8 +613,13 @@ class C13(Prop):
                     if got == 'Array' and not new.dimensions and not shape and explicit_empty and not (
                             has_parent and new.scope is not None and (rec0 is None or not rec0.dtype)):
                         cls = 'empty-dimensions-array'
-                    elif has_parent and new.scope is not None and (rec0 is None or not rec0.dtype):
-                        cls = 'deferred-entry-on-member'    # DEFERRED on record, the type definition is reported
+                    elif has_parent and new.scope is not None and (rec0 is None or not rec0.dtype) and not (
+                            kind == 'create' and is_none(op[3]) and parent_delivers):
+                        # DEFERRED on record (handed to the factory as type=, or left where the given parent does not
+                        # deliver the member), the type definition is reported.  NOT the class when Variable resolves the
+                        # type itself and the given parent delivers the member: then `_get_type_from_scope` must look
+                        # through a stale DEFERRED entry exactly like `_lookup_type` does.
+                        cls = 'deferred-entry-on-member'
                     elif not has_parent and '%' in given:
                         cls = 'qualified-name-without-parent'
                     fail(f'step {k} {dumps(op)}: symbol {new.name} of recorded type {dumps(w.r_type(t))} is a {got}, '
